@@ -206,6 +206,7 @@ type Goal struct {
 	Output   string
 	QueryTxt string
 	WantVals []string
+	Retried  bool
 }
 
 type Ctx struct {
@@ -213,6 +214,7 @@ type Ctx struct {
 	Items   []Item
 	Goals   []*Goal
 	nfresh  int
+	Extra   []string
 	declared map[string]bool
 }
 
@@ -281,7 +283,7 @@ func (c *Ctx) Query(g *Goal, getvals []string) string {
 	var b bytes.Buffer
 	b.WriteString("(set-option :produce-models true)\n(set-logic ALL)\n")
 	b.WriteString(c.Prelude)
-	for _, d := range extraDecls {
+	for _, d := range c.Extra {
 		b.WriteString(d)
 		b.WriteString("\n")
 	}
